@@ -307,10 +307,12 @@ def validate_traces(ctx, traces, N, expect_reject=()):
     finally:
         os.unlink(path)
     rej = None
-    for line in r.printed:
-        if "REJECTED" in line:
-            import re
-            rej = [int(x) - 1 for x in re.findall(r"\d+", line.split("REJECTED", 1)[1])]
+    for rec in r.records:
+        if isinstance(rec, dict) and rec.get("k") == "rejected":
+            if rec["n"] != len(traces):
+                from ..ctx import MachineryError
+                raise MachineryError("trace run saw %s traces, %d were sent" % (rec["n"], len(traces)))
+            rej = sorted(int(x) - 1 for x in rec["ids"])
     if rej is None:
         from ..ctx import MachineryError
         raise MachineryError("trace run printed no verdict: %s" % r.raw_tail[-5:])
